@@ -190,19 +190,22 @@ theorem cachesInv_fresh (F : Fns) : CachesInv F World.fresh :=
   ⟨Memo.inv_empty _ _, Memo.inv_empty _ _⟩
 
 /-- Two worlds that agree on everything except the CONTENTS of the two caches (both satisfying the
-invariant) and `error_code`. -/
-structure Sim (F : Fns) (w1 w2 : World) : Prop where
+invariant) and — when the flag `ec` is `false` — `error_code`.  With `ec = true` they agree on
+`error_code` too (used inside a command-line `main()`, which resets it and reads it at the end). -/
+structure Sim (F : Fns) (ec : Bool) (w1 w2 : World) : Prop where
   months : w1.months = w2.months
   strict : w1.strict = w2.strict
   captured : w1.captured = w2.captured
   plugins : w1.plugins = w2.plugins
   inv1 : CachesInv F w1
   inv2 : CachesInv F w2
+  code : ec = true → w1.errorCode = w2.errorCode
 
-theorem Sim.rfl' {F : Fns} {w : World} (h : CachesInv F w) : Sim F w w := ⟨rfl, rfl, rfl, rfl, h, h⟩
+theorem Sim.rfl' {F : Fns} {ec : Bool} {w : World} (h : CachesInv F w) : Sim F ec w w :=
+  ⟨rfl, rfl, rfl, rfl, h, h, fun _ => rfl⟩
 
 /-- same result, similar worlds -/
-def SimOut (F : Fns) {α : Type} (a b : World × α) : Prop := a.2 = b.2 ∧ Sim F a.1 b.1
+def SimOut (F : Fns) (ec : Bool) {α : Type} (a b : World × α) : Prop := a.2 = b.2 ∧ Sim F ec a.1 b.1
 
 /-- What a call may change: nothing of the month table, `strict`, the plug-in registry; and
 `captured_errors` stays `None` if it was (it only ever grows inside a `capture()`). -/
@@ -221,25 +224,25 @@ theorem Frame.trans {a b c : World} (h1 : Frame a b) (h2 : Frame b c) : Frame a 
 
 /-! ### `report_error` -/
 
-theorem report_sim {F : Fns} {w1 w2 : World} (hs : Sim F w1 w2) (e : Err) :
-    SimOut F (report w1 e) (report w2 e) := by
-  obtain ⟨hm, hst, hc, hp, i1, i2⟩ := hs
+theorem report_sim {F : Fns} {ec : Bool} {w1 w2 : World} (hs : Sim F ec w1 w2) (e : Err) :
+    SimOut F ec (report w1 e) (report w2 e) := by
+  obtain ⟨hm, hst, hc, hp, i1, i2, hcode⟩ := hs
   cases h2 : w2.captured with
   | some l =>
     have h1 : w1.captured = some l := hc.trans h2
     simp only [report, h1, h2, SimOut]
-    exact ⟨trivial, hm, hst, rfl, hp, ⟨i1.split, i1.fmt⟩, ⟨i2.split, i2.fmt⟩⟩
+    exact ⟨trivial, hm, hst, rfl, hp, ⟨i1.split, i1.fmt⟩, ⟨i2.split, i2.fmt⟩, hcode⟩
   | none =>
     have h1 : w1.captured = none := hc.trans h2
     cases hs2 : w2.strict with
     | true =>
       have hs1 : w1.strict = true := hst.trans hs2
       simp only [report, h1, h2, hs1, hs2, SimOut, if_true]
-      exact ⟨trivial, hm, hst, hc, hp, i1, i2⟩
+      exact ⟨trivial, hm, hst, hc, hp, i1, i2, hcode⟩
     | false =>
       have hs1 : w1.strict = false := hst.trans hs2
       simp only [report, h1, h2, hs1, hs2, SimOut, Bool.false_eq_true, if_false]
-      exact ⟨trivial, hm, rfl, rfl, hp, ⟨i1.split, i1.fmt⟩, ⟨i2.split, i2.fmt⟩⟩
+      exact ⟨trivial, hm, rfl, rfl, hp, ⟨i1.split, i1.fmt⟩, ⟨i2.split, i2.fmt⟩, fun _ => rfl⟩
 
 theorem report_frame (w : World) (e : Err) : Frame w (report w e).1 := by
   cases h : w.captured with
@@ -255,9 +258,9 @@ theorem report_frame (w : World) (e : Err) : Frame w (report w e).1 := by
       simp only [report, h, hs, Bool.false_eq_true, if_false]
       exact ⟨rfl, hs.symm, rfl, (fun _ => rfl), (fun h' => by rw [h] at h'; cases h')⟩
 
-theorem reportK_sim {F : Fns} {β : Type} {w1 w2 : World} (hs : Sim F w1 w2) (e : Err) (r : β)
-    {k1 k2 : World → World × β} (hk : ∀ a1 a2, Sim F a1 a2 → SimOut F (k1 a1) (k2 a2)) :
-    SimOut F (reportK w1 e r k1) (reportK w2 e r k2) := by
+theorem reportK_sim {F : Fns} {ec : Bool} {β : Type} {w1 w2 : World} (hs : Sim F ec w1 w2) (e : Err) (r : β)
+    {k1 k2 : World → World × β} (hk : ∀ a1 a2, Sim F ec a1 a2 → SimOut F ec (k1 a1) (k2 a2)) :
+    SimOut F ec (reportK w1 e r k1) (reportK w2 e r k2) := by
   have h := report_sim hs e
   simp only [reportK]
   rcases h1 : report w1 e with ⟨a1, b1⟩
@@ -280,10 +283,10 @@ theorem reportK_frame {β : Type} (w : World) (e : Err) (r : β) {k : World → 
   | true => exact h
   | false => exact h.trans (hk a1)
 
-theorem bindE_sim {F : Fns} {α β : Type} {x1 x2 : World × Except Err α} (hx : SimOut F x1 x2)
+theorem bindE_sim {F : Fns} {ec : Bool} {α β : Type} {x1 x2 : World × Except Err α} (hx : SimOut F ec x1 x2)
     {k1 k2 : World → α → World × Except Err β}
-    (hk : ∀ a1 a2 v, Sim F a1 a2 → SimOut F (k1 a1 v) (k2 a2 v)) :
-    SimOut F (bindE x1 k1) (bindE x2 k2) := by
+    (hk : ∀ a1 a2 v, Sim F ec a1 a2 → SimOut F ec (k1 a1 v) (k2 a2 v)) :
+    SimOut F ec (bindE x1 k1) (bindE x2 k2) := by
   obtain ⟨a1, r1⟩ := x1
   obtain ⟨a2, r2⟩ := x2
   obtain ⟨hr, ha⟩ := hx
@@ -301,8 +304,8 @@ theorem bindE_frame {α β : Type} {w : World} {x : World × Except Err α} (hx 
   | error e => exact hx
   | ok v => exact hx.trans (hk a v)
 
-theorem reportAll_sim {F : Fns} {α : Type} {w1 w2 : World} (hs : Sim F w1 w2) (errs : List Err) (v : α) :
-    SimOut F (reportAll w1 errs v) (reportAll w2 errs v) := by
+theorem reportAll_sim {F : Fns} {ec : Bool} {α : Type} {w1 w2 : World} (hs : Sim F ec w1 w2) (errs : List Err) (v : α) :
+    SimOut F ec (reportAll w1 errs v) (reportAll w2 errs v) := by
   induction errs generalizing w1 w2 with
   | nil => exact ⟨rfl, hs⟩
   | cons e es ih => exact reportK_sim hs e _ (fun a1 a2 ha => ih ha)
@@ -353,13 +356,13 @@ theorem formatNameCall_eq (F : Fns) {w : World} (hw : CachesInv F w) (key : FmtK
   | raised e => rfl
   | internal => rfl
 
-theorem formatNameCall_sim {F : Fns} {w1 w2 : World} (hs : Sim F w1 w2) (key : FmtKey) :
-    SimOut F (formatNameCall F w1 key) (formatNameCall F w2 key) := by
+theorem formatNameCall_sim {F : Fns} {ec : Bool} {w1 w2 : World} (hs : Sim F ec w1 w2) (key : FmtKey) :
+    SimOut F ec (formatNameCall F w1 key) (formatNameCall F w2 key) := by
   obtain ⟨fc1, sc1, hf1, hs1, e1⟩ := formatNameCall_eq F hs.inv1 key
   obtain ⟨fc2, sc2, hf2, hs2, e2⟩ := formatNameCall_eq F hs.inv2 key
   rw [e1, e2]
-  have hs' : Sim F { w1 with fmtCache := fc1, splitCache := sc1 } { w2 with fmtCache := fc2, splitCache := sc2 } :=
-    ⟨hs.months, hs.strict, hs.captured, hs.plugins, ⟨hs1, hf1⟩, ⟨hs2, hf2⟩⟩
+  have hs' : Sim F ec { w1 with fmtCache := fc1, splitCache := sc1 } { w2 with fmtCache := fc2, splitCache := sc2 } :=
+    ⟨hs.months, hs.strict, hs.captured, hs.plugins, ⟨hs1, hf1⟩, ⟨hs2, hf2⟩, hs.code⟩
   cases gFmt F key with
   | val p => obtain ⟨s, errs⟩ := p; exact reportAll_sim hs' errs s
   | raised e => exact ⟨rfl, hs'⟩
@@ -401,11 +404,81 @@ theorem formatNameCall_not_internal (F : Fns) (hF : ∀ n f, F.formatOne n f ≠
       | true => simp
       | false => exact ih a
 
+/-! ### the `format.name$` built-in (range check, then the memoised formatter) -/
+
+theorem splitCall_spec (F : Fns) {sc : Memo Str (List Str)} (hsc : Memo.Inv cap (gSplit F) sc) (names : Str) :
+    (splitCall F sc names).1 = .val (F.splitNames names) ∧ Memo.Inv cap (gSplit F) (splitCall F sc names).2 :=
+  Memo.call_spec cap_pos (gSplit F) hsc names
+
+/-- what the built-in does once `_split_names(names)` has answered (and updated its cache to `sc`) -/
+def builtinAfterSplit (F : Fns) (w : World) (key : FmtKey) (sc : Memo Str (List Str)) : World × MRes Err Str :=
+  if 1 ≤ key.n ∧ key.n ≤ ((F.splitNames key.names).length : Int) then
+    formatNameCall F { w with splitCache := sc } key
+  else
+    reportK { w with splitCache := sc } (.noSuchName key.n key.names)
+      (.raised (.noSuchName key.n key.names)) fun w1 => (w1, .val [])
+
+/-- From ANY state of the name-splitting cache that satisfies the invariant the built-in takes its
+decision on the true name count. -/
+theorem formatNameBuiltin_eq (F : Fns) {w : World} (hw : CachesInv F w) (key : FmtKey) :
+    ∃ sc, Memo.Inv cap (gSplit F) sc ∧ formatNameBuiltin F w key = builtinAfterSplit F w key sc := by
+  by_cases hn : key.n < 1
+  · refine ⟨w.splitCache, hw.split, ?_⟩
+    have hneg : ¬ (1 ≤ key.n ∧ key.n ≤ ((F.splitNames key.names).length : Int)) := by omega
+    simp only [formatNameBuiltin, if_pos hn, builtinAfterSplit, if_neg hneg]
+  · obtain ⟨h1, h2⟩ := splitCall_spec F hw.split key.names
+    rcases hc : splitCall F w.splitCache key.names with ⟨r, sc1⟩
+    rw [hc] at h1 h2
+    simp only [] at h1 h2
+    subst h1
+    refine ⟨sc1, h2, ?_⟩
+    have h1le : 1 ≤ key.n := by omega
+    simp only [formatNameBuiltin, if_neg hn, hc, builtinAfterSplit, h1le, true_and]
+
+theorem formatNameBuiltin_sim {F : Fns} {ec : Bool} {w1 w2 : World} (hs : Sim F ec w1 w2) (key : FmtKey) :
+    SimOut F ec (formatNameBuiltin F w1 key) (formatNameBuiltin F w2 key) := by
+  obtain ⟨sc1, hi1, e1⟩ := formatNameBuiltin_eq F hs.inv1 key
+  obtain ⟨sc2, hi2, e2⟩ := formatNameBuiltin_eq F hs.inv2 key
+  rw [e1, e2]
+  have hs' : Sim F ec { w1 with splitCache := sc1 } { w2 with splitCache := sc2 } :=
+    ⟨hs.months, hs.strict, hs.captured, hs.plugins, ⟨hi1, hs.inv1.fmt⟩, ⟨hi2, hs.inv2.fmt⟩, hs.code⟩
+  simp only [builtinAfterSplit]
+  split
+  · exact formatNameCall_sim hs' key
+  · exact reportK_sim hs' _ _ (fun a1 a2 ha => ⟨rfl, ha⟩)
+
+theorem formatNameBuiltin_frame (F : Fns) (w : World) (key : FmtKey) : Frame w (formatNameBuiltin F w key).1 := by
+  simp only [formatNameBuiltin]
+  split
+  · exact reportK_frame _ _ _ (fun a => Frame.refl a)
+  · rcases splitCall F w.splitCache key.names with ⟨r, sc⟩
+    have h0 : Frame w { w with splitCache := sc } := ⟨rfl, rfl, rfl, id, id⟩
+    cases r with
+    | val l =>
+      simp only []
+      split
+      · exact h0.trans (formatNameCall_frame F _ key)
+      · exact h0.trans (reportK_frame _ _ _ (fun a => Frame.refl a))
+    | raised e => exact h0
+    | internal => exact h0
+
+/-- the built-in never fails in the bookkeeping of either cache -/
+theorem formatNameBuiltin_not_internal (F : Fns) (hF : ∀ n f, F.formatOne n f ≠ .internal) {w : World}
+    (hw : CachesInv F w) (key : FmtKey) : (formatNameBuiltin F w key).2 ≠ .internal := by
+  obtain ⟨sc, hi, e⟩ := formatNameBuiltin_eq F hw key
+  rw [e]
+  simp only [builtinAfterSplit]
+  split
+  · exact formatNameCall_not_internal F hF (w := { w with splitCache := sc }) ⟨hi, hw.fmt⟩ key
+  · simp only [reportK]
+    rcases report { w with splitCache := sc } (.noSuchName key.n key.names) with ⟨a, b⟩
+    cases b <;> simp
+
 /-! ### reading `.bib` input -/
 
-theorem evalParts_sim {F : Fns} (get : Str → Option Str) {w1 w2 : World} (hs : Sim F w1 w2)
+theorem evalParts_sim {F : Fns} {ec : Bool} (get : Str → Option Str) {w1 w2 : World} (hs : Sim F ec w1 w2)
     (acc : List Str) (ps : List Part) :
-    SimOut F (evalParts get w1 acc ps) (evalParts get w2 acc ps) := by
+    SimOut F ec (evalParts get w1 acc ps) (evalParts get w2 acc ps) := by
   induction ps generalizing w1 w2 acc with
   | nil => exact ⟨rfl, hs⟩
   | cons p ps ih =>
@@ -430,9 +503,9 @@ theorem evalParts_frame (get : Str → Option Str) (w : World) (acc : List Str) 
       | some x => exact ih _ _
       | none => exact reportK_frame w _ _ (fun a => ih a _)
 
-theorem evalFields_sim {F : Fns} (get : Str → Option Str) {w1 w2 : World} (hs : Sim F w1 w2)
+theorem evalFields_sim {F : Fns} {ec : Bool} (get : Str → Option Str) {w1 w2 : World} (hs : Sim F ec w1 w2)
     (acc : List (Str × List Str)) (fs : List (Str × List Part)) :
-    SimOut F (evalFields get w1 acc fs) (evalFields get w2 acc fs) := by
+    SimOut F ec (evalFields get w1 acc fs) (evalFields get w2 acc fs) := by
   induction fs generalizing w1 w2 acc with
   | nil => exact ⟨rfl, hs⟩
   | cons f fs ih =>
@@ -450,8 +523,8 @@ theorem evalFields_frame (get : Str → Option Str) (w : World)
     simp only [evalFields]
     exact bindE_frame (evalParts_frame get w [] parts) (fun a v => ih a _)
 
-theorem addPersons_sim {F : Fns} {w1 w2 : World} (hs : Sim F w1 w2) (role : Str) (e : Entry)
-    (names : List Str) : SimOut F (addPersons F w1 role e names) (addPersons F w2 role e names) := by
+theorem addPersons_sim {F : Fns} {ec : Bool} {w1 w2 : World} (hs : Sim F ec w1 w2) (role : Str) (e : Entry)
+    (names : List Str) : SimOut F ec (addPersons F w1 role e names) (addPersons F w2 role e names) := by
   induction names generalizing w1 w2 e with
   | nil => exact ⟨rfl, hs⟩
   | cons nm r ih =>
@@ -478,9 +551,9 @@ theorem addPersons_frame (F : Fns) (w : World) (role : Str) (e : Entry) (names :
       | true => exact reportK_frame w _ _ (fun a => ih a _)
       | false => exact ih w _
 
-theorem processFields_sim {F : Fns} (persons : Bool) {w1 w2 : World} (hs : Sim F w1 w2) (key : Str)
+theorem processFields_sim {F : Fns} {ec : Bool} (persons : Bool) {w1 w2 : World} (hs : Sim F ec w1 w2) (key : Str)
     (seen : List Str) (e : Entry) (fs : List (Str × List Str)) :
-    SimOut F (processFields F persons w1 key seen e fs) (processFields F persons w2 key seen e fs) := by
+    SimOut F ec (processFields F persons w1 key seen e fs) (processFields F persons w2 key seen e fs) := by
   induction fs generalizing w1 w2 seen e with
   | nil => exact ⟨rfl, hs⟩
   | cons f fs ih =>
@@ -506,21 +579,25 @@ theorem processFields_frame (F : Fns) (persons : Bool) (w : World) (key : Str)
       · exact bindE_frame (addPersons_frame F w _ _ _) (fun a e1 => ih a _ _)
       · exact ih w _ _
 
-theorem addEntry_sim {F : Fns} {w1 w2 : World} (hs : Sim F w1 w2) (r : Reader) (e : Entry) :
-    SimOut F (addEntry w1 r e) (addEntry w2 r e) := by
+theorem addEntry_sim {F : Fns} {ec : Bool} {w1 w2 : World} (hs : Sim F ec w1 w2) (r : Reader) (e : Entry) :
+    SimOut F ec (addEntry w1 r e) (addEntry w2 r e) := by
   simp only [addEntry]
   split
-  · exact reportK_sim hs _ _ (fun a1 a2 ha => ⟨rfl, ha⟩)
   · exact ⟨rfl, hs⟩
+  · split
+    · exact reportK_sim hs _ _ (fun a1 a2 ha => ⟨rfl, ha⟩)
+    · exact ⟨rfl, hs⟩
 
 theorem addEntry_frame (w : World) (r : Reader) (e : Entry) : Frame w (addEntry w r e).1 := by
   simp only [addEntry]
   split
-  · exact reportK_frame w _ _ (fun a => Frame.refl a)
   · exact Frame.refl w
+  · split
+    · exact reportK_frame w _ _ (fun a => Frame.refl a)
+    · exact Frame.refl w
 
-theorem readCmd_sim {F : Fns} (persons : Bool) {w1 w2 : World} (hs : Sim F w1 w2) (r : Reader) (c : Cmd) :
-    SimOut F (readCmd F persons w1 r c) (readCmd F persons w2 r c) := by
+theorem readCmd_sim {F : Fns} {ec : Bool} (persons : Bool) {w1 w2 : World} (hs : Sim F ec w1 w2) (r : Reader) (c : Cmd) :
+    SimOut F ec (readCmd F persons w1 r c) (readCmd F persons w2 r c) := by
   cases c with
   | string name val =>
     simp only [readCmd]
@@ -530,8 +607,14 @@ theorem readCmd_sim {F : Fns} (persons : Bool) {w1 w2 : World} (hs : Sim F w1 w2
     exact bindE_sim (evalParts_sim _ hs [] val) (fun a1 a2 v ha => ⟨rfl, ha⟩)
   | entry type key fields =>
     simp only [readCmd]
+    split
+    · exact ⟨rfl, hs⟩
+    · exact bindE_sim (evalFields_sim _ hs [] fields) (fun a1 a2 fs ha =>
+        bindE_sim (processFields_sim persons ha key [] _ fs) (fun b1 b2 e hb => addEntry_sim hb r e))
+  | keyless type fields =>
+    simp only [readCmd]
     exact bindE_sim (evalFields_sim _ hs [] fields) (fun a1 a2 fs ha =>
-      bindE_sim (processFields_sim persons ha key [] _ fs) (fun b1 b2 e hb => addEntry_sim hb r e))
+      bindE_sim (processFields_sim persons ha _ [] _ fs) (fun b1 b2 e hb => addEntry_sim hb _ e))
 
 theorem readCmd_frame (F : Fns) (persons : Bool) (w : World) (r : Reader) (c : Cmd) :
     Frame w (readCmd F persons w r c).1 := by
@@ -544,11 +627,17 @@ theorem readCmd_frame (F : Fns) (persons : Bool) (w : World) (r : Reader) (c : C
     exact bindE_frame (evalParts_frame _ w [] val) (fun a v => Frame.refl a)
   | entry type key fields =>
     simp only [readCmd]
+    split
+    · exact Frame.refl w
+    · exact bindE_frame (evalFields_frame _ w [] fields) (fun a fs =>
+        bindE_frame (processFields_frame F persons a key [] _ fs) (fun b e => addEntry_frame b r e))
+  | keyless type fields =>
+    simp only [readCmd]
     exact bindE_frame (evalFields_frame _ w [] fields) (fun a fs =>
-      bindE_frame (processFields_frame F persons a key [] _ fs) (fun b e => addEntry_frame b r e))
+      bindE_frame (processFields_frame F persons a _ [] _ fs) (fun b e => addEntry_frame b _ e))
 
-theorem readDoc_sim {F : Fns} (persons : Bool) {w1 w2 : World} (hs : Sim F w1 w2) (r : Reader) (d : Doc) :
-    SimOut F (readDoc F persons w1 r d) (readDoc F persons w2 r d) := by
+theorem readDoc_sim {F : Fns} {ec : Bool} (persons : Bool) {w1 w2 : World} (hs : Sim F ec w1 w2) (r : Reader) (d : Doc) :
+    SimOut F ec (readDoc F persons w1 r d) (readDoc F persons w2 r d) := by
   induction d generalizing w1 w2 r with
   | nil => exact ⟨rfl, hs⟩
   | cons c cs ih =>
@@ -563,8 +652,8 @@ theorem readDoc_frame (F : Fns) (persons : Bool) (w : World) (r : Reader) (d : D
     simp only [readDoc]
     exact bindE_frame (readCmd_frame F persons w r c) (fun a r1 => ih a r1)
 
-theorem readFiles_sim {F : Fns} (persons : Bool) {w1 w2 : World} (hs : Sim F w1 w2) (r : Reader)
-    (ds : List Doc) : SimOut F (readFiles F persons w1 r ds) (readFiles F persons w2 r ds) := by
+theorem readFiles_sim {F : Fns} {ec : Bool} (persons : Bool) {w1 w2 : World} (hs : Sim F ec w1 w2) (r : Reader)
+    (ds : List Doc) : SimOut F ec (readFiles F persons w1 r ds) (readFiles F persons w2 r ds) := by
   induction ds generalizing w1 w2 r with
   | nil => exact ⟨rfl, hs⟩
   | cons d ds ih =>
@@ -593,14 +682,137 @@ theorem readFiles_append (F : Fns) (persons : Bool) (w : World) (r : Reader) (ds
     | error e => rfl
     | ok r1 => simp only [bindE]; exact ih a r1
 
+/-! ### what one reader has read is never lost: entries, preamble, wanted keys and the unnamed-entry counter only grow -/
+
+/-- `r'` holds everything `r` holds, in the same order, and possibly more at the end -/
+structure Reader.Grows (r r' : Reader) : Prop where
+  entries : r.entries <+: r'.entries
+  preamble : r.preamble <+: r'.preamble
+  unnamed : r.unnamed ≤ r'.unnamed
+  wantedNone : r.wanted = none → r'.wanted = none
+  wantedSome : ∀ s, r.wanted = some s → ∃ s', r'.wanted = some s' ∧ s <+: s'
+  citations : r'.citations = r.citations
+
+theorem Reader.Grows.refl (r : Reader) : Reader.Grows r r :=
+  ⟨List.prefix_refl _, List.prefix_refl _, Nat.le_refl _, id, fun s h => ⟨s, h, List.prefix_refl _⟩, rfl⟩
+
+theorem Reader.Grows.trans {a b c : Reader} (h1 : Reader.Grows a b) (h2 : Reader.Grows b c) : Reader.Grows a c :=
+  ⟨h1.entries.trans h2.entries, h1.preamble.trans h2.preamble, Nat.le_trans h1.unnamed h2.unnamed,
+   fun h => h2.wantedNone (h1.wantedNone h),
+   fun s h => by
+     obtain ⟨s1, e1, p1⟩ := h1.wantedSome s h
+     obtain ⟨s2, e2, p2⟩ := h2.wantedSome s1 e1
+     exact ⟨s2, e2, p1.trans p2⟩,
+   h2.citations.trans h1.citations⟩
+
+theorem bindE_ok {α β : Type} {x : World × Except Err α} {k : World → α → World × Except Err β}
+    {w' : World} {v' : β} (h : bindE x k = (w', .ok v')) : ∃ w1 v, x = (w1, .ok v) ∧ k w1 v = (w', .ok v') := by
+  obtain ⟨a, r⟩ := x
+  cases r with
+  | error e => simp [bindE] at h
+  | ok v => exact ⟨a, v, rfl, h⟩
+
+theorem reportK_ok {β : Type} {w : World} {e x : Err} {k : World → World × Except Err β} {w' : World} {v' : β}
+    (h : reportK w e (.error x) k = (w', .ok v')) : ∃ w1, k w1 = (w', .ok v') := by
+  simp only [reportK] at h
+  generalize report w e = p at h
+  obtain ⟨a, b⟩ := p
+  cases b with
+  | true => simp at h
+  | false => exact ⟨a, h⟩
+
+theorem addEntry_grows {w w' : World} {r r' : Reader} {e : Entry} (h : addEntry w r e = (w', .ok r')) :
+    Reader.Grows r r' := by
+  simp only [addEntry] at h
+  split at h
+  · cases h; exact Reader.Grows.refl _
+  · split at h
+    · obtain ⟨w1, h1⟩ := reportK_ok h
+      cases h1; exact Reader.Grows.refl _
+    · cases hw : r.wanted with
+      | none =>
+        rw [hw] at h
+        simp only [Prod.mk.injEq, Except.ok.injEq] at h
+        obtain ⟨_, rfl⟩ := h
+        exact ⟨List.prefix_append _ _, List.prefix_refl _, Nat.le_refl _, (fun _ => rfl),
+               (fun s hs => by rw [hw] at hs; cases hs), rfl⟩
+      | some s =>
+        rw [hw] at h
+        cases hx : dget (e.fields.map fun p => (lower p.1, p.2)) "crossref".toList with
+        | none =>
+          rw [hx] at h
+          simp only [Prod.mk.injEq, Except.ok.injEq] at h
+          obtain ⟨_, rfl⟩ := h
+          exact ⟨List.prefix_append _ _, List.prefix_refl _, Nat.le_refl _, (fun h' => by rw [hw] at h'; cases h'),
+                 (fun s' hs' => by rw [hw] at hs'; cases hs'; exact ⟨_, rfl, List.prefix_refl _⟩), rfl⟩
+        | some x =>
+          rw [hx] at h
+          simp only [Prod.mk.injEq, Except.ok.injEq] at h
+          obtain ⟨_, rfl⟩ := h
+          refine ⟨List.prefix_append _ _, List.prefix_refl _, Nat.le_refl _, (fun h' => by rw [hw] at h'; cases h'),
+                  (fun s' hs' => ?_), rfl⟩
+          rw [hw] at hs'
+          cases hs'
+          refine ⟨_, rfl, ?_⟩
+          split
+          · exact List.prefix_refl _
+          · exact List.prefix_append _ _
+
+theorem readCmd_grows {F : Fns} {persons : Bool} {w w' : World} {r r' : Reader} {c : Cmd}
+    (h : readCmd F persons w r c = (w', .ok r')) : Reader.Grows r r' := by
+  cases c with
+  | string name val =>
+    simp only [readCmd] at h
+    obtain ⟨w1, v, _, h2⟩ := bindE_ok h
+    cases h2
+    exact ⟨List.prefix_refl _, List.prefix_refl _, Nat.le_refl _, id, fun s hs => ⟨s, hs, List.prefix_refl _⟩, rfl⟩
+  | preamble val =>
+    simp only [readCmd] at h
+    obtain ⟨w1, v, _, h2⟩ := bindE_ok h
+    cases h2
+    exact ⟨List.prefix_refl _, List.prefix_append _ _, Nat.le_refl _, id, fun s hs => ⟨s, hs, List.prefix_refl _⟩, rfl⟩
+  | entry type key fields =>
+    simp only [readCmd] at h
+    split at h
+    · cases h; exact Reader.Grows.refl _
+    · obtain ⟨w1, fs, _, h2⟩ := bindE_ok h
+      obtain ⟨w2, e, _, h3⟩ := bindE_ok h2
+      exact addEntry_grows h3
+  | keyless type fields =>
+    simp only [readCmd] at h
+    obtain ⟨w1, fs, _, h2⟩ := bindE_ok h
+    obtain ⟨w2, e, _, h3⟩ := bindE_ok h2
+    have hg := addEntry_grows h3
+    have h0 : Reader.Grows r { r with unnamed := r.unnamed + 1 } :=
+      ⟨List.prefix_refl _, List.prefix_refl _, Nat.le_succ _, id, (fun s hs => ⟨s, hs, List.prefix_refl _⟩), rfl⟩
+    exact h0.trans hg
+
+theorem readDoc_grows {F : Fns} {persons : Bool} {w w' : World} {r r' : Reader} {d : Doc}
+    (h : readDoc F persons w r d = (w', .ok r')) : Reader.Grows r r' := by
+  induction d generalizing w r with
+  | nil => simp only [readDoc] at h; cases h; exact Reader.Grows.refl _
+  | cons c cs ih =>
+    simp only [readDoc] at h
+    obtain ⟨w1, r1, h1, h2⟩ := bindE_ok h
+    exact (readCmd_grows h1).trans (ih h2)
+
+theorem readFiles_grows {F : Fns} {persons : Bool} {w w' : World} {r r' : Reader} {ds : List Doc}
+    (h : readFiles F persons w r ds = (w', .ok r')) : Reader.Grows r r' := by
+  induction ds generalizing w r with
+  | nil => simp only [readFiles] at h; cases h; exact Reader.Grows.refl _
+  | cons d ds ih =>
+    simp only [readFiles] at h
+    obtain ⟨w1, r1, h1, h2⟩ := bindE_ok h
+    exact (readDoc_grows h1).trans (ih h2)
+
 /-! ### opaque code -/
 
-theorem findPlugin_sim {F : Fns} {w1 w2 : World} (hs : Sim F w1 w2) (g n : Str) :
+theorem findPlugin_sim {F : Fns} {ec : Bool} {w1 w2 : World} (hs : Sim F ec w1 w2) (g n : Str) :
     findPlugin F w1 g n = findPlugin F w2 g n := by
   simp only [findPlugin, hs.plugins]
 
-theorem runProg_sim {F : Fns} {w1 w2 : World} (hs : Sim F w1 w2) (p : Prog) :
-    SimOut F (runProg F w1 p) (runProg F w2 p) := by
+theorem runProg_sim {F : Fns} {ec : Bool} {w1 w2 : World} (hs : Sim F ec w1 w2) (p : Prog) :
+    SimOut F ec (runProg F w1 p) (runProg F w2 p) := by
   induction p generalizing w1 w2 with
   | done out => exact ⟨rfl, hs⟩
   | raise e => exact ⟨rfl, hs⟩
@@ -609,9 +821,9 @@ theorem runProg_sim {F : Fns} {w1 w2 : World} (hs : Sim F w1 w2) (p : Prog) :
     exact reportK_sim hs _ _ (fun a1 a2 ha => ih ha)
   | formatName key k ih =>
     simp only [runProg]
-    have h := formatNameCall_sim hs key
-    rcases h1 : formatNameCall F w1 key with ⟨a1, r1⟩
-    rcases h2 : formatNameCall F w2 key with ⟨a2, r2⟩
+    have h := formatNameBuiltin_sim hs key
+    rcases h1 : formatNameBuiltin F w1 key with ⟨a1, r1⟩
+    rcases h2 : formatNameBuiltin F w2 key with ⟨a2, r2⟩
     rw [h1, h2] at h
     obtain ⟨hr, ha⟩ := h
     simp only [] at hr ha
@@ -634,8 +846,8 @@ theorem runProg_frame (F : Fns) (w : World) (p : Prog) : Frame w (runProg F w p)
     exact reportK_frame w _ _ (fun a => ih a)
   | formatName key k ih =>
     simp only [runProg]
-    have h := formatNameCall_frame F w key
-    rcases hx : formatNameCall F w key with ⟨a1, r1⟩
+    have h := formatNameBuiltin_frame F w key
+    rcases hx : formatNameBuiltin F w key with ⟨a1, r1⟩
     rw [hx] at h
     cases r1 with
     | val s => exact h.trans (ih s a1)
@@ -647,10 +859,10 @@ theorem runProg_frame (F : Fns) (w : World) (p : Prog) : Frame w (runProg F w p)
 
 /-! ### the public calls -/
 
-theorem withReader_sim {F : Fns} (persons : Bool) {w1 w2 : World} (hs : Sim F w1 w2) (r0 : Reader)
+theorem withReader_sim {F : Fns} {ec : Bool} (persons : Bool) {w1 w2 : World} (hs : Sim F ec w1 w2) (r0 : Reader)
     (files : List Doc) {k1 k2 : World → Reader → World × Result}
-    (hk : ∀ a1 a2 r, Sim F a1 a2 → SimOut F (k1 a1 r) (k2 a2 r)) :
-    SimOut F (withReader F persons w1 r0 files k1) (withReader F persons w2 r0 files k2) := by
+    (hk : ∀ a1 a2 r, Sim F ec a1 a2 → SimOut F ec (k1 a1 r) (k2 a2 r)) :
+    SimOut F ec (withReader F persons w1 r0 files k1) (withReader F persons w2 r0 files k2) := by
   have h := readFiles_sim persons hs r0 files
   simp only [withReader]
   rcases h1 : readFiles F persons w1 r0 files with ⟨a1, x1⟩
@@ -677,12 +889,22 @@ theorem withReader_frame (F : Fns) (persons : Bool) (w : World) (r0 : Reader) (f
 /-- DETERMINISM / cache-independence of every call: in two worlds that differ only in what the two
 caches happen to hold (and in `error_code`) a call returns the same result and leaves two worlds
 that again differ only in that. -/
-theorem step_sim {F : Fns} {w1 w2 : World} (hs : Sim F w1 w2) (c : Call) :
-    SimOut F (step F w1 c) (step F w2 c) := by
-  induction c generalizing w1 w2 with
+theorem step_sim {F : Fns} {ec : Bool} {w1 w2 : World} (hs : Sim F ec w1 w2) (c : Call) :
+    SimOut F ec (step F w1 c) (step F w2 c) := by
+  induction c generalizing w1 w2 ec with
   | parse files =>
     simp only [step]
     rw [findPlugin_sim hs, newReader, hs.months]
+    cases findPlugin F w2 inputGroup bibtexName with
+    | none => exact ⟨rfl, hs⟩
+    | some cls =>
+      simp only []
+      split
+      · exact withReader_sim true hs _ files (fun a1 a2 r ha => ⟨rfl, ha⟩)
+      · exact runProg_sim hs _
+  | parseWanted cits files =>
+    simp only [step]
+    rw [findPlugin_sim hs, newReaderWanted, newReader, hs.months]
     cases findPlugin F w2 inputGroup bibtexName with
     | none => exact ⟨rfl, hs⟩
     | some cls =>
@@ -695,13 +917,13 @@ theorem step_sim {F : Fns} {w1 w2 : World} (hs : Sim F w1 w2) (c : Call) :
     | default => simp only [step]; rw [hs.months]; exact ⟨rfl, hs⟩
     | moduleTable =>
       simp only [step]; rw [hs.months]
-      exact ⟨rfl, rfl, hs.strict, hs.captured, hs.plugins, ⟨hs.inv1.split, hs.inv1.fmt⟩, ⟨hs.inv2.split, hs.inv2.fmt⟩⟩
+      exact ⟨rfl, rfl, hs.strict, hs.captured, hs.plugins, ⟨hs.inv1.split, hs.inv1.fmt⟩, ⟨hs.inv2.split, hs.inv2.fmt⟩, hs.code⟩
     | table t => simp only [step]; exact ⟨rfl, hs⟩
   | formatName key =>
     simp only [step]
-    have h := formatNameCall_sim hs key
-    rcases h1 : formatNameCall F w1 key with ⟨a1, r1⟩
-    rcases h2 : formatNameCall F w2 key with ⟨a2, r2⟩
+    have h := formatNameBuiltin_sim hs key
+    rcases h1 : formatNameBuiltin F w1 key with ⟨a1, r1⟩
+    rcases h2 : formatNameBuiltin F w2 key with ⟨a2, r2⟩
     rw [h1, h2] at h
     obtain ⟨hr, ha⟩ := h
     simp only [] at hr ha
@@ -732,8 +954,8 @@ theorem step_sim {F : Fns} {w1 w2 : World} (hs : Sim F w1 w2) (c : Call) :
       · exact withReader_sim true hs _ files (fun a1 a2 r ha => runProg_sim ha _)
       · exact runProg_sim hs _
   | capture c ih =>
-    have hs' : Sim F { w1 with captured := some [] } { w2 with captured := some [] } :=
-      ⟨hs.months, hs.strict, rfl, hs.plugins, ⟨hs.inv1.split, hs.inv1.fmt⟩, ⟨hs.inv2.split, hs.inv2.fmt⟩⟩
+    have hs' : Sim F ec { w1 with captured := some [] } { w2 with captured := some [] } :=
+      ⟨hs.months, hs.strict, rfl, hs.plugins, ⟨hs.inv1.split, hs.inv1.fmt⟩, ⟨hs.inv2.split, hs.inv2.fmt⟩, hs.code⟩
     have h := ih hs'
     simp only [step]
     rcases h1 : step F { w1 with captured := some [] } c with ⟨a1, r1⟩
@@ -742,26 +964,46 @@ theorem step_sim {F : Fns} {w1 w2 : World} (hs : Sim F w1 w2) (c : Call) :
     obtain ⟨hr, ha⟩ := h
     simp only [] at hr ha
     subst hr
-    have hsim : Sim F { a1 with captured := w1.captured } { a2 with captured := w2.captured } :=
-      ⟨ha.months, ha.strict, hs.captured, ha.plugins, ⟨ha.inv1.split, ha.inv1.fmt⟩, ⟨ha.inv2.split, ha.inv2.fmt⟩⟩
+    have hsim : Sim F ec { a1 with captured := w1.captured } { a2 with captured := w2.captured } :=
+      ⟨ha.months, ha.strict, hs.captured, ha.plugins, ⟨ha.inv1.split, ha.inv1.fmt⟩, ⟨ha.inv2.split, ha.inv2.fmt⟩, ha.code⟩
     simp only []
     rw [ha.captured]
     cases a2.captured with
     | some l => exact ⟨rfl, hsim⟩
     | none => exact ⟨rfl, hsim⟩
   | nonstrict c ih =>
-    have hs' : Sim F { w1 with strict := false } { w2 with strict := false } :=
-      ⟨hs.months, rfl, hs.captured, hs.plugins, ⟨hs.inv1.split, hs.inv1.fmt⟩, ⟨hs.inv2.split, hs.inv2.fmt⟩⟩
+    have hs' : Sim F ec { w1 with strict := false } { w2 with strict := false } :=
+      ⟨hs.months, rfl, hs.captured, hs.plugins, ⟨hs.inv1.split, hs.inv1.fmt⟩, ⟨hs.inv2.split, hs.inv2.fmt⟩, hs.code⟩
     have h := ih hs'
     simp only [step]
     obtain ⟨hr, ha⟩ := h
-    exact ⟨hr, ha.months, hs.strict, ha.captured, ha.plugins, ⟨ha.inv1.split, ha.inv1.fmt⟩, ⟨ha.inv2.split, ha.inv2.fmt⟩⟩
+    exact ⟨hr, ha.months, hs.strict, ha.captured, ha.plugins, ⟨ha.inv1.split, ha.inv1.fmt⟩, ⟨ha.inv2.split, ha.inv2.fmt⟩, ha.code⟩
+  | cliMain strictOpt c ih =>
+    -- `main()` starts from `error_code = 0` in BOTH worlds: inside it the worlds agree on the status too
+    have hs' : Sim F true { w1 with errorCode := 0, strict := strictOpt } { w2 with errorCode := 0, strict := strictOpt } :=
+      ⟨hs.months, rfl, hs.captured, hs.plugins, ⟨hs.inv1.split, hs.inv1.fmt⟩, ⟨hs.inv2.split, hs.inv2.fmt⟩, fun _ => rfl⟩
+    have h := ih hs'
+    simp only [step]
+    obtain ⟨hr, ha⟩ := h
+    refine ⟨?_, ha.months, hs.strict, ha.captured, ha.plugins, ⟨ha.inv1.split, ha.inv1.fmt⟩, ⟨ha.inv2.split, ha.inv2.fmt⟩,
+      fun _ => ha.code rfl⟩
+    show exitStatus _ _ = exitStatus _ _
+    rw [hr, ha.code rfl]
 
 /-- FRAME of every call that does not hand the module table to `LowLevelParser`: the month table,
 `strict`, the plug-in registry are unchanged, `captured_errors` stays `None`. -/
 theorem step_frame (F : Fns) (w : World) (c : Call) (hc : c.isPublic = true) : Frame w (step F w c).1 := by
   induction c generalizing w with
   | parse files =>
+    simp only [step]
+    cases findPlugin F w inputGroup bibtexName with
+    | none => exact Frame.refl w
+    | some cls =>
+      simp only []
+      split
+      · exact withReader_frame F true w _ files (fun a r => Frame.refl a)
+      · exact runProg_frame F w _
+  | parseWanted cits files =>
     simp only [step]
     cases findPlugin F w inputGroup bibtexName with
     | none => exact Frame.refl w
@@ -777,8 +1019,8 @@ theorem step_frame (F : Fns) (w : World) (c : Call) (hc : c.isPublic = true) : F
     | table t => exact Frame.refl w
   | formatName key =>
     simp only [step]
-    have h := formatNameCall_frame F w key
-    rcases hx : formatNameCall F w key with ⟨a1, r1⟩
+    have h := formatNameBuiltin_frame F w key
+    rcases hx : formatNameBuiltin F w key with ⟨a1, r1⟩
     rw [hx] at h
     cases r1 with
     | val s => exact h
@@ -817,6 +1059,10 @@ theorem step_frame (F : Fns) (w : World) (c : Call) (hc : c.isPublic = true) : F
     have h := ih { w with strict := false } (by simpa [Call.isPublic] using hc)
     simp only [step]
     exact ⟨h.months, rfl, h.plugins, h.capNone, h.capSome⟩
+  | cliMain strictOpt c ih =>
+    have h := ih { w with errorCode := 0, strict := strictOpt } (by simpa [Call.isPublic] using hc)
+    simp only [step]
+    exact ⟨h.months, rfl, h.plugins, h.capNone, h.capSome⟩
 
 theorem run_frame (F : Fns) (w : World) (h : List Call) (hh : ∀ c ∈ h, c.isPublic = true) :
     Frame w (run F w h) := by
@@ -828,7 +1074,7 @@ theorem run_frame (F : Fns) (w : World) (h : List Call) (hh : ∀ c ∈ h, c.isP
       (ih _ (fun c' hc' => hh c' (List.mem_cons_of_mem _ hc')))
 
 theorem step_inv {F : Fns} {w : World} (hw : CachesInv F w) (c : Call) : CachesInv F (step F w c).1 :=
-  (step_sim (Sim.rfl' hw) c).2.inv1
+  (step_sim (ec := false) (Sim.rfl' hw) c).2.inv1
 
 theorem run_inv {F : Fns} {w : World} (hw : CachesInv F w) (h : List Call) : CachesInv F (run F w h) := by
   induction h generalizing w with
@@ -838,9 +1084,9 @@ theorem run_inv {F : Fns} {w : World} (hw : CachesInv F w) (h : List Call) : Cac
 /-- After any history of public calls at top level the world differs from the initial one only in
 the contents of the caches and `error_code`. -/
 theorem run_sim {F : Fns} {w : World} (hw : CachesInv F w) (hcap : w.captured = none) (h : List Call)
-    (hh : ∀ c ∈ h, c.isPublic = true) : Sim F (run F w h) w := by
+    (hh : ∀ c ∈ h, c.isPublic = true) : Sim F false (run F w h) w := by
   have hf := run_frame F w h hh
-  exact ⟨hf.months, hf.strict, (hf.capNone hcap).trans hcap.symm, hf.plugins, run_inv hw h, hw⟩
+  exact ⟨hf.months, hf.strict, (hf.capNone hcap).trans hcap.symm, hf.plugins, run_inv hw h, hw, fun h => nomatch h⟩
 
 /-! ### a small concrete instance of the opaque code, for the non-vacuity examples -/
 
